@@ -116,6 +116,18 @@ Qed.
 
 End RuntimeBool.
 
+(* for pos in range(len(l)) / range(0, len(l)): the loop over the positions of l *)
+Lemma for_from_seq_enum {X R St : Type} (l : list X) : forall a i (body : nat -> St -> ctl R St) s (k : St -> R),
+  for_from i (seq a (length l)) (fun _ => body) s k = for_from a l (fun pos _ => body pos) s k.
+Proof.
+  induction l as [|x r IH]; intros a i body s k; simpl; [reflexivity|].
+  destruct (body a s); [apply IH|reflexivity].
+Qed.
+
+Lemma for_range_enum {X R St : Type} (l : list X) (body : nat -> St -> ctl R St) s (k : St -> R) :
+  for_range 0 (length l) body s k = for_enum l (fun pos _ => body pos) s k.
+Proof. unfold for_range, for_each, for_enum. rewrite Nat.sub_0_r. apply for_from_seq_enum. Qed.
+
 Lemma sub_nth_error {X : Type} (d : X) (l : list X) (i : nat) (x : X) :
   nth_error l i = Some x -> sub d l i = x.
 Proof. intros H. unfold sub. now apply nth_error_nth. Qed.
@@ -259,9 +271,11 @@ Theorem kernel_my_child_eq (rs : ruleset) (child : pt) (base : P) (ppos : nat) (
   inrange rs child ->
   py_are_you_my_child up un rs child base ppos pprob = my_child rs child base ppos pprob.
 Proof.
-  intros Ht. unfold py_are_you_my_child, my_child, my_child_gen, for_enum. cbv zeta.
+  intros Ht. unfold py_are_you_my_child, my_child, my_child_gen. cbv zeta.
+  rewrite ?for_range_enum. unfold for_enum.
   apply for_from_forall. intros j [v i] Hn. change (0 + j) with j.
   knorm child j v i Hn. rewrite Hn.
+  pose proof (inrange_nth rs _ j v i Ht Hn) as Hi.
   rewrite ?(kernel_find_prob_eq rs _ base (inrange_pred rs child j Ht)).
   unfold plt, peq. destruct i as [|i]; kcases.
 Qed.
@@ -270,7 +284,8 @@ Qed.
 Theorem kernel_find_children_eq (rs : ruleset) (it : item) :
   inrange rs (ipt it) -> py_find_children up un rs it = find_children rs it.
 Proof.
-  intros Ht. unfold py_find_children, find_children, find_children_gen, for_enum. cbv zeta.
+  intros Ht. unfold py_find_children, find_children, find_children_gen. cbv zeta.
+  rewrite ?for_range_enum. unfold for_enum.
   rewrite for_from_acc with (h := fun pos =>
     match nth_error (ipt it) pos with
     | Some (v, i) =>
@@ -282,6 +297,7 @@ Proof.
     end); [reflexivity|].
   intros j [v i] s Hn. change (0 + j) with j.
   knorm (ipt it) j v i Hn. rewrite Hn.
+  pose proof (inrange_nth rs _ j v i Ht Hn) as Hi.       (* the index is in range: i + 1 <= number of groups *)
   destruct (Nat.eqb_spec (length (groups rs v)) (i + 1)) as [El|El]; [kcases|].
   assert (Hc : inrange rs (upd (ipt it) j S)) by (eapply inrange_succ'; eassumption).
   rewrite ?(kernel_my_child_eq rs _ (ibase it) j (iprob it) Hc).
@@ -293,9 +309,11 @@ Qed.
 Theorem kernel_parent_around_eq (rs : ruleset) (it : item) (m : P) :
   inrange rs (ipt it) -> py_is_parent_around up un rs it m = parent_around_gen false rs it m.
 Proof.
-  intros Ht. unfold py_is_parent_around, parent_around_gen, for_enum. cbv zeta.
+  intros Ht. unfold py_is_parent_around, parent_around_gen. cbv zeta.
+  rewrite ?for_range_enum. unfold for_enum.
   apply for_from_exists. intros j [v i] Hn. change (0 + j) with j.
   knorm (ipt it) j v i Hn. rewrite Hn.
+  pose proof (inrange_nth rs _ j v i Ht Hn) as Hi.
   rewrite ?(kernel_find_prob_eq rs _ (ibase it) (inrange_pred rs (ipt it) j Ht)).
   unfold plt, peq. destruct i as [|i]; kcases.
 Qed.
@@ -350,6 +368,7 @@ Proof.
     destruct (nth_error (ipt it) j) as [[v i]|] eqn:Hn;
       [|apply nth_error_None in Hn; lia].
     knorm (ipt it) j v i Hn.
+    pose proof (inrange_nth rs _ j v i Ht Hn) as Hi.
     destruct (Nat.eqb_spec (length (groups rs v)) (i + 1)) as [El|El]; [kcases|].
     pose proof (Qs _ _ _ _ Hq Hn (proj2 (Nat.eqb_neq _ _) El)) as Hqc.
     rewrite ?(kernel_find_prob_eq rs _ (ibase it) (Qr _ Hqc)).
@@ -491,6 +510,23 @@ Proof.
   apply In_all_preterminals in Hit.
   destruct (good_ok rs Hwf it Hit) as [Hb Ht].
   apply kernel_restore_eq_ok; auto. now apply (good_iprob_ok rs Hwf).
+Qed.
+
+(* C01 (every prefix sorted, frontier below everything emitted; the reported probability is the
+   left-to-right product), stated for the loop that calls the translated functions *)
+Theorem kernel_sorted_every_prefix pop n : pop_ok_okb pop ->
+  nonincreasing (rev (emitted (kernel_run pop rs n (kernel_start rs)))) /\
+  (forall e q, In e (emitted (kernel_run pop rs n (kernel_start rs))) ->
+               In q (pending (kernel_run pop rs n (kernel_start rs))) -> ple (iprob q) (iprob e) = true).
+Proof. intros Hpop. rewrite (kernel_run_eq pop n Hpop). exact (C01_sorted_okb rs Hwf pop n Hpop). Qed.
+
+Theorem kernel_prob_is_product pop n it : pop_ok_okb pop ->
+  In it (emitted (kernel_run pop rs n (kernel_start rs)) ++ pending (kernel_run pop rs n (kernel_start rs))) ->
+  iprob it = py_find_prob up rs (ipt it) (ibase it) /\ In it (all_preterminals rs).
+Proof.
+  intros Hpop. rewrite (kernel_run_eq pop n Hpop). intros Hin.
+  destruct (C01_prob_is_product_okb rs Hwf pop n it Hpop Hin) as [Hp Ha]. split; [|exact Ha].
+  rewrite kernel_find_prob_eq; [exact Hp|]. apply good_inrange. now apply In_all_preterminals.
 Qed.
 
 (* C02 and the frontier theorem of C08, stated for the loops that call the
